@@ -26,7 +26,7 @@ type ForeignParams struct {
 	Pub    bool   `json:"pub,omitempty"`    // EC: include the optional public key
 	Pad    string `json:"pad,omitempty"`    // EC scalar: fixed | stripped | extra
 	Sig    string `json:"sig,omitempty"`    // signature algorithm name; default SHA-256 of the signer's family
-	Hash   bool   `json:"hash,omitempty"`   // keep no hash line (always hash-less) - reserved
+	AltDN  bool   `json:"altDN,omitempty"`  // the certificate's subject text differs from the config's subject
 }
 
 func (f ForeignParams) JSON() string { b, _ := json.Marshal(f); return string(b) }
@@ -327,7 +327,11 @@ func buildForeignArtifact(w *World, e *EntitySpec, arg string) ([]byte, error) {
 	}
 	var out []byte
 	if has(p.Parts, "cert") {
-		subj := derName(e.Subject, p.Str)
+		names := e.Subject
+		if p.AltDN {
+			names = append(append([]RDN(nil), e.Subject...), RDN{"O", "Imported Elsewhere"})
+		}
+		subj := derName(names, p.Str)
 		issuerDN := subj
 		signer, fam := k.priv, k.fam
 		if e.Issuer != "" {
